@@ -99,7 +99,7 @@ def run(prop, tier, seed, replay=None):
     s1 = core.mt("replay-chol", path, os.path.join(wd, "sum1.json"), seed)
     # 3. recorded classes, validated
     trace = os.path.join(wd, "matrix.ndjson")
-    s2 = core.mt("record-matrix", None, os.path.join(wd, "sum2.json"), seed, {"trace": trace, "count": 3000 if tier == "quick" else 60000})
+    s2 = core.mt("record-matrix", None, os.path.join(wd, "sum2.json"), seed, {"trace": trace, "count": 6000 if tier == "quick" else 60000})
     rej, tstates = validate_simple("Trace_Matrix", trace, wd, "trace")
     violations = list(s1["violations"])
     for x in rej:
